@@ -386,7 +386,13 @@ func (fi *FuncInfo) argWrapper() func(reflect.Value) any {
 		}
 	case array:
 		return func(v reflect.Value) any {
-			return &arrayStub{v: v.Interface(), posNames: names}
+			arg := v.Interface()
+			if _, ok := arg.(interface{ DisallowUnknownFields() }); ok {
+				// The stub hides the argument's own request for strict field
+				// checking from UnmarshalParams, so honour it here.
+				arg = &strictStub{v: arg}
+			}
+			return &arrayStub{v: arg, posNames: names}
 		}
 	default:
 		return reflect.Value.Interface
